@@ -5,6 +5,7 @@
    table the translator emits, the model's view of an observation, and the model's client protocol packaged as the protocol
    object the generated functions are abstract in.  No lemmas: see Proofs/EquivSession_proofs.v. *)
 From Coq Require Import List NArith ZArith Bool.
+From Coq Require QArith.
 From NV Require Import Prelude.Str Prelude.Res Prelude.Utf8 Model.Tofu Model.ClientProto Model.Session.
 From NV Require Spec.C13.
 Import ListNotations.
@@ -12,8 +13,10 @@ Import ListNotations.
 (* ---- configuration (GeminiClient.__init__) ---- *)
 (* an ssl.SSLContext: the caller's own, or create_client_context(verify_mode = CERT_REQUIRED / CERT_NONE, check_hostname) *)
 Inductive sslctx := CtxGiven (id : N) | CtxCreated (cert_required check_hostname : bool).
-(* the attributes of the client the two calls read; cfg_tofu_db: None, or the TOFUDatabase object (its content is the store) *)
-Record client_cfg := { cfg_tofu_db : option unit; cfg_ssl_context : sslctx; cfg_decode_bodies : bool }.
+(* the attributes GeminiClient.__init__ assigns, all of them; cfg_tofu_db: None, or the TOFUDatabase object (its content is the
+   store); a float is a rational, max_redirects a natural number (a negative int has no counterpart) *)
+Record client_cfg := { cfg_timeout : QArith_base.Q; cfg_max_redirects : nat; cfg_verify_ssl : bool; cfg_trust_on_first_use : bool;
+                       cfg_tofu_db : option unit; cfg_ssl_context : sslctx; cfg_decode_bodies : bool }.
 
 (* upload(content: bytes | str) *)
 Inductive pycontent := PStr (s : str) | PBytes (b : str).
